@@ -1,13 +1,14 @@
 // C19 - the multi transport routes writes to the selected member and merges all reads.
 //
 // Workloads:
-//   TestC19Routing     only member ids are configured and emitted: routing (porcupine, one-register model), exactly-once
-//                      reads, Close reaches every member, counters are sums.
-//   TestC19NonMember   the initial id or a scheduler output is the empty id or an id outside the member set: must be
-//                      rejected or ignored and must never make Write / AsUnreliable / NegotiationParams panic; the same
-//                      oracles as above run on whatever survives.
-//   TestC19ConnConfig  the same configuration question asked through iscp.Connect (iscp/conn_options.go builds the
-//                      multi transport from MultiTransportConfig).
+//
+//	TestC19Routing     only member ids are configured and emitted: routing (porcupine, one-register model), exactly-once
+//	                   reads, Close reaches every member, counters are sums.
+//	TestC19NonMember   the initial id or a scheduler output is the empty id or an id outside the member set: must be
+//	                   rejected or ignored and must never make Write / AsUnreliable / NegotiationParams panic; the same
+//	                   oracles as above run on whatever survives.
+//	TestC19ConnConfig  the same configuration question asked through iscp.Connect (iscp/conn_options.go builds the
+//	                   multi transport from MultiTransportConfig).
 package c19
 
 import (
